@@ -101,6 +101,8 @@ impl XRefTable {
                 XRef::Raw { pos, gen_nr } => (pos as u64, gen_nr),
                 XRef::Free { next_obj_nr, gen_nr } => (next_obj_nr, gen_nr),
                 XRef::Stream { stream_id, index } => (stream_id, index as u64),
+                // written as a free entry, see write_stream
+                XRef::Invalid => (0, 0xffff),
                 _ => continue
             };
             max_a = max_a.max(a);
@@ -139,6 +141,8 @@ impl XRefTable {
                 XRef::Free { next_obj_nr, gen_nr } => (0, next_obj_nr, gen_nr),
                 XRef::Raw { pos, gen_nr } => (1, pos as u64, gen_nr),
                 XRef::Stream { stream_id, index } => (2, stream_id, index as u64),
+                // a number below /Size that no section of the loaded file defines: not in use
+                XRef::Invalid => (0, 0, 0xffff),
                 x => bail!("invalid xref entry: {:?}", x)
             };
             data.push(t);
